@@ -12,6 +12,7 @@ from statham.schema.validation import (
     NoMatch,
     Validator,
 )
+from statham.schema.validation.base import replace_bool
 
 
 T = TypeVar("T")
@@ -220,7 +221,8 @@ class Element(Generic[T]):
             for k, v in vars(x).items()
             if not k.startswith("_") or k == "_properties"
         }
-        return pub_vars(self) == pub_vars(other)
+        # Alias booleans so that e.g. `const=True` and `const=1` differ.
+        return replace_bool(pub_vars(self)) == replace_bool(pub_vars(other))
 
     @property
     def annotation(self) -> str:
